@@ -54,6 +54,44 @@ def bigdecimal_stream(rep, tier, seed, harness, wd):
                       {"kind": "case", "case": C.codec_line(c), "implementation": a, "why": why, "n_failing": len(bad)})
 
 
+def mono_stream(rep, tier, seed, harness, model, wd):
+    """concrete Rust types at the boundaries of the library's type-directed special cases (u8 test in Vec<T> /
+    [T; N], transmute layouts): one-byte element types that are not u8, nested byte arrays, LinkedList<u8>, ...
+    The dynamic route cannot reach these because its element type is always the harness's own value type."""
+    rng = C.rng_for(seed, "C01mono")
+    names = C.run([harness, "monotypes"], timeout=120).stdout.split("\n")
+    names = [n for n in names if n.strip()]
+    per = 12 if tier == "quick" else 400
+    cases = []
+    for n in names:
+        t = G.ty_of_text(n)
+        for _ in range(per):
+            cases.append(R.mk(None, t, G.gen_value(rng, t), rng.choice(R.SUFFIXES)))
+    hl = [f"mrt {C.codec_line(c)[3:]}" for c in cases]
+    impl = C.run_sharded(harness, "static", hl, wd, "mono.impl", shards=8)
+    mod = C._run_codec_side(model, cases, [C.codec_line(c) for c in cases], wd, "mono.model", 8, 3000)
+    norm = lambda l: " ; ".join(" ".join(p.split(" ")[:2]) if i == 0 and p.startswith("ok ") else p
+                                for i, p in enumerate(l.split(" ; ")))
+    dis = [(h, a, b) for h, a, b in zip(hl, impl, mod) if norm(a) != norm(b)]
+    bad = []
+    for c, a in zip(cases, impl):
+        ok, why = R.judge_rt(c, a)
+        if not ok:
+            bad.append((c, a, why))
+    rep.coverage["monomorphic_types"] = {"types": len(names), "cases": len(cases), "failing": len(bad),
+                                         "disagreements": len(dis), "sample": hl[0][:100]}
+    rep.coverage["evaluations"] = rep.coverage.get("evaluations", 0) + len(cases)
+    if bad:
+        c, a, why = bad[0]
+        rep.violation(f"{why}: mrt {C.codec_line(c)[3:160]}",
+                      {"kind": "case", "case": "mrt " + C.codec_line(c)[3:], "implementation": a, "why": why,
+                       "n_failing": len(bad), "rerun": "printf '<case>\\n' > f && .cache/target/release/dharness static f"})
+    elif dis:
+        rep.violation("model/implementation correspondence no longer checks on the monomorphic catalogue: " + dis[0][0][:120],
+                      {"kind": "correspondence", "stream": "static/mono", "first_disagreement": dis[0],
+                       "n_disagreements": len(dis)}, no_input=True)
+
+
 def tz_list_check(rep, harness):
     """coq/TzNames.v (the model's oracle for Tz::from_str) against the chrono-tz linked into the implementation"""
     have = C.run([harness, "tznames"], timeout=120).stdout.split()
@@ -86,4 +124,5 @@ def check(rep, tier, seed):
                                    "implementation alone"])
     harness = C.build_harness("release")
     bigdecimal_stream(rep, tier, seed, harness, C.workdir("C01bd"))
+    mono_stream(rep, tier, seed, harness, C.build_model(), C.workdir("C01mono"))
     tz_list_check(rep, harness)
